@@ -56,13 +56,13 @@ def build():
         // JWS ECDSA signature: R || S, each left-padded with zeros to the curve size (RFC 7518 section 3.4)
         r matches Ok(v) ==> exists|rr: Seq<u8>, ss: Seq<u8>| crate::openssl::ecdsa::ecdsa_valid(self.inner_key.ident@, hash_spec(*hash_func, data@), rr, ss)
             && rr.len() <= ec_size(self.key_type) && ss.len() <= ec_size(self.key_type)
-            && v@ == crate::openssl::bn::left_pad(rr, ec_size(self.key_type)) + crate::openssl::bn::left_pad(ss, ec_size(self.key_type)), //@C15.ecdsa_r_s_left_padded
+            && v@ == crate::openssl::bn::left_pad(rr, ec_size(self.key_type)) + crate::openssl::bn::left_pad(ss, ec_size(self.key_type)), //@C15.ecdsa_r_s_left_padded,C04.ecdsa_signature_is_r_s_left_padded
         r matches Ok(v) ==> v@.len() == 2 * ec_size(self.key_type) && ec_size(self.key_type) > 0, //@C15.ecdsa_signature_fixed_width
-""", at=[("before_stmt", "Ok(signature)", 1, """
+""", at=[("before_tail", None, 1, """
         proof {
             let n = ec_size(self.key_type);
-            assert(r_before@ =~= crate::openssl::bn::left_pad(sig0.r.be@, n)); //@C15.ecdsa_r_s_left_padded
-            assert(s_before@ =~= crate::openssl::bn::left_pad(sig0.s.be@, n)); //@C15.ecdsa_r_s_left_padded
+            assert(r_before@ =~= crate::openssl::bn::left_pad(sig0.r.be@, n)); //@C15.ecdsa_r_s_left_padded,C04.ecdsa_signature_is_r_s_left_padded
+            assert(s_before@ =~= crate::openssl::bn::left_pad(sig0.s.be@, n)); //@C15.ecdsa_r_s_left_padded,C04.ecdsa_signature_is_r_s_left_padded
         }"""),
          ("before_stmt", "let mut signature = r;", 1, "let ghost r_before = r; let ghost s_before = s; let ghost sig0 = signature;")],
         rewrites=[("T-ITER", r"s\.resize_with\((?P<n>[^,]*), \|\| 0\);", r"crate::openssl::bn::resize_zero(&mut s, \g<n>);", None)])})
@@ -78,7 +78,7 @@ def build():
         if thumbprint { j.members@ =~= map!["e"@ => e, "kty"@ => "RSA"@, "n"@ => n] }
         else { j.members@ =~= map!["alg"@ => "RS256"@, "e"@ => e, "kty"@ => "RSA"@, "n"@ => n, "use"@ => "sig"@] }
     }), //@C15.rsa_jwk_members
-""", rewrites=[JSON, B64], at=[("before_stmt", "Ok(jwk)", 1, "proof { reveal_with_fuel(crate::vjson::pairs_map, 8); }")])})
+""", rewrites=[JSON, B64], at=[("before_tail", None, 1, "proof { reveal_with_fuel(crate::vjson::pairs_map, 8); }")])})
     u.verify(K, "KeyPair::get_ecdsa_jwk", "crypto", props=["C15"], fns={"get_ecdsa_jwk": FnSpec(ret="r", sig="""
     requires self.wf(),
     ensures r matches Ok(j) ==> ({
@@ -90,7 +90,7 @@ def build():
         &&& if thumbprint { j.members@ =~= map!["crv"@ => crv_name(self.key_type), "kty"@ => "EC"@, "x"@ => x, "y"@ => y] }
             else { j.members@ =~= map!["alg"@ => es_name(self.key_type), "crv"@ => crv_name(self.key_type), "kty"@ => "EC"@, "use"@ => "sig"@, "x"@ => x, "y"@ => y] }
     }), //@C15.ec_jwk_members_fixed_width
-""", rewrites=[JSON, B64], at=[("before_stmt", "Ok(jwk)", 1, "proof { reveal_with_fuel(crate::vjson::pairs_map, 8); }")])})
+""", rewrites=[JSON, B64], at=[("before_tail", None, 1, "proof { reveal_with_fuel(crate::vjson::pairs_map, 8); }")])})
     u.macro(K, "get_key_type")
     for f in ["from_der", "from_pem"]:
         u.verify(K, f"KeyPair::{f}", "crypto", props=["C15"], fns={f: FnSpec(ret="r", sig="""
